@@ -387,6 +387,8 @@ def to_c(c):
     if op == "copy":
         return "copy %s %s %d %d %s %s %s\n" % (c["id"], c_sparse(c["A"]), len(c["bval"]), len(c["bcolptr"]),
                                               " ".join(chex(x) for x in c["bval"]), c_ivec(c["browind"]), c_ivec(c["bcolptr"]))
+    if op == "dncopy":
+        return "dncopy %s %d %d %d %d %s %s\n" % (c["id"], c["M"], c["N"], c["ldx"], c["ldy"], c_vec(c["X"]), c_vec(c["Y"]))
     if op == "factor":
         return "factor %s %d %d %d %d %d %d %d %s %s %s\n" % (c["id"], c.get("nprocs", 1), c["permc"], c["panel"], c["relax"], c["maxsuper"], c["n"],
                                                          len(c["val"]), c_ivec(c["colptr"]), c_ivec(c["rowind"]),
@@ -1007,6 +1009,55 @@ def kp_oracle(c, r, P):
     return None
 
 
+def dense_copy_stream(ctx, exe, prec, nscale):
+    """?Copy_Dense_Matrix(M, N, X, ldx, Y, ldy) must give Y(i,j) = X(i,j) for i < M, j < N and touch nothing else: exact oracle on
+    shapes with every relation between the leading dimensions (ldx = ldy = M, ldx = ldy > M, ldx <> ldy), N = 0..5, M = 0..9"""
+    rng = ctx.rng
+    nc = PREC[prec]["ncomp"] if "ncomp" in PREC[prec] else (2 if prec in "cz" else 1)
+    cases = []
+    shapes = [(5, 3, 8, 8), (4, 1, 4, 4), (3, 4, 3, 3), (6, 2, 9, 7), (2, 5, 2, 6), (0, 3, 2, 2), (3, 0, 3, 3), (1, 4, 3, 3)]
+    for _ in range(4 * nscale):
+        M = rng.randint(0, 9); N = rng.randint(0, 5); pad = rng.choice([0, 0, 1, 3])
+        ldx = M + pad + (0 if rng.random() < 0.6 else rng.randint(0, 2)); ldy = ldx if rng.random() < 0.6 else M + rng.randint(0, 3)
+        shapes.append((M, N, max(ldx, 1), max(ldy, 1)))
+    for k, (M, N, ldx, ldy) in enumerate(shapes):
+        mk = (lambda: complex(rng.randint(-9, 9), rng.randint(-9, 9))) if nc == 2 else (lambda: float(rng.randint(-99, 99)))
+        X = [mk() for _ in range(ldx * max(N, 1) + 2)]
+        Y = [(complex(-777.0, 555.0) if nc == 2 else -777.0)] * (ldy * max(N, 1) + 2)
+        cases.append({"op": "dncopy", "id": "dn%s%d" % (prec, k), "M": M, "N": N, "ldx": ldx, "ldy": ldy, "X": X, "Y": Y})
+    res = run_harness(exe, cases)
+    nbad = 0
+    for c in cases:
+        ctx.count((prec, "dncopy", c["M"], c["N"], c["ldx"], c["ldy"], tuple(c["X"][:4])), kind="dncopy:" + ("same-ld-padded" if c["ldx"] == c["ldy"] > c["M"] else "other"))
+        why = dncopy_oracle(c, res.get(c["id"], ("missing", [])), nc)
+        if why:
+            nbad += 1
+            ctx.violation("%sCopy_Dense_Matrix(M=%d, N=%d, ldx=%d, ldy=%d) does not preserve the matrix: %s" % (prec, c["M"], c["N"], c["ldx"], c["ldy"], why),
+                          {"kind": "dncopy", "prec": prec, "case": c if nc == 1 else dict(c, X=[[z.real, z.imag] for z in c["X"]], Y=[[z.real, z.imag] for z in c["Y"]]), "expect": "property-oracle"},
+                          key={"routine": "?Copy_Dense_Matrix", "class": why[:24]})
+    ctx.corr("dense-copy-exact:" + prec, len(cases))
+    return nbad
+
+
+def dncopy_oracle(c, r, nc):
+    if True:
+        st, tok = r
+        why = None
+        if st != "ok":
+            why = "the routine did not return normally (%s)" % st
+        else:
+            got = vals_of(tok[1:1 + int(tok[0]) * nc], nc)
+            for j in range(c["N"]):
+                for i in range(c["ldy"]):
+                    want = c["X"][j * c["ldx"] + i] if i < c["M"] else c["Y"][0]
+                    if got[j * c["ldy"] + i] != want:
+                        why = why or "Y(%d,%d) = %s, expected %s (%s)" % (i, j, got[j * c["ldy"] + i], want, "X(%d,%d)" % (i, j) if i < c["M"] else "the padding must stay untouched")
+            for q in range(c["N"] * c["ldy"], len(c["Y"])):
+                if got[q] != c["Y"][0]:
+                    why = why or "storage behind the last column of Y was written"
+        return why
+
+
 def kpred_run(ctx, flavor, prec, nscale):
     """K-pred on precision `prec` of library flavour `flavor` (oracle only, no model comparison)"""
     P = PREC[prec]
@@ -1060,7 +1111,7 @@ def kpred_run(ctx, flavor, prec, nscale):
             x = [conv_val(rng, v, P) for v in gen_vec(rng, Fc["n"], "unit", zeros=0.1)]
             tc.append({"op": "trsv", "id": "%st%d" % (prec, k), "uplo": ul, "tr": tr, "diag": dg, "F": Fc, "x": x})
     res = run_harness(exe, cases + tc)
-    nbad = 0
+    nbad = dense_copy_stream(ctx, exe, prec, nscale)
     for c in cases + tc:
         if c["id"] not in res:
             ctx.broken.append("K-pred %s/%s: no result for %s" % (flavor, prec, c["id"]))
@@ -1499,6 +1550,7 @@ def run(ctx):
                           "(the routine reads colbeg[j+1] where colend[j] is meant)" % why,
                           {"kind": "case", "case": slim(g), "expect": "property-oracle"},
                           key={"routine": "sp_?gemv", "class": "ncp-storage"})
+    dense_copy_stream(ctx, exe, "d", nscale)
     # ---- 3. K-pred: the other precisions and the USE_VENDOR_BLAS code paths against the exact oracle
     plan = [("hooks", "s"), ("hooks", "c"), ("hooks", "z"), ("vendor", "d")]
     if not ctx.quick():
@@ -1538,6 +1590,19 @@ def replay(ctx, obj):
         exe = ctx.cc_harness("spblas_%s_%s" % (rp["prec"], rp["flavor"]), ["spblas_harness.c", "sp_ienv_verif.c"], lib, fl + [P["flag"]],
                              extra_link=["-lopenblas"] if rp["flavor"] == "vendor" else ())
         why = kp_oracle(c, run_harness(exe, [c])[c["id"]], P)
+        if why is None:
+            print("replay: case %s now satisfies the property oracle" % c["id"])
+            return 0
+        ctx.violation("replayed: %s" % why, rp, key=obj.get("key") or {})
+        return 1 if ctx.violations else 0
+    if rp.get("kind") == "dncopy":
+        P = PREC[rp["prec"]]; nc = P["ncomp"]
+        c = dict(rp["case"])
+        if nc == 2:
+            c["X"] = [complex(a, b) for a, b in c["X"]]; c["Y"] = [complex(a, b) for a, b in c["Y"]]
+        lib, fl = ctx.build_lib("hooks")
+        exe = ctx.cc_harness("spblas_%s_hooks" % rp["prec"], ["spblas_harness.c", "sp_ienv_verif.c"], lib, fl + [P["flag"]])
+        why = dncopy_oracle(c, run_harness(exe, [c]).get(c["id"], ("missing", [])), nc)
         if why is None:
             print("replay: case %s now satisfies the property oracle" % c["id"])
             return 0
